@@ -441,6 +441,9 @@ def _gantry(ctx, prog):
     vv = util.virtual_calls(b)
     if ctx.check(len(vv) == 1 and vv[0][2] == 'forward', 'R09.5', 'tool::Gantry/inner', b.where(0), b.path, 'expected one inner forward call'):
         X = algebra.canon(strip(b.call_term(vv[0][1], (vv[0][0], None))))
-        w = algebra.word(b.return_term())
+        rt = b.return_term()
+        if isinstance(strip(rt), tuple) and strip(rt)[0] == 'call' and strip(rt)[1] in prog.bodies:
+            rt = util.inline_calls(prog, rt, depth=1)         # the product kept in a free helper of the module: written out
+        w = algebra.word(rt)
         ok = len(w) == 3 and _is_self_fld(w[0][0], 'base') and w[2] == (X, 1) and all(e == 1 for a, e in w) and util.is_param(('ref', w[1][0]), 2)
         ctx.check(ok, 'R09.5', 'tool::Gantry/word', b.where(vv[0][0]), b.path, 'forward must be base * translation * robot', found=_sw(w), detail=_sw(w))
